@@ -198,6 +198,8 @@ def apply(it, fv, args, kwargs, node=None):
             fi = o.module.resolve_method(o.name, fv.name)
             return call_with_contract(it, fi, None, [o] + args, kwargs, node)
         impls = it._resolve(o, fv.name)
+        if it.spec_mode:
+            return it.call_merged(o, fv.name, impls, args, kwargs, node)
         fi = it._dispatch(o, fv.name, impls)
         return call_with_contract(it, fi, o, [o] + args, kwargs, node)
     if isinstance(fv, ArrMethod):
@@ -207,7 +209,8 @@ def apply(it, fv, args, kwargs, node=None):
     if isinstance(fv, Opaque):
         if fv.what.startswith("logger"):
             return None
-        raise Unsupported("call of opaque value %s (line %s)" % (fv.what, getattr(node, "lineno", "?")))
+        it.assumptions_log.add("external call %s: result unconstrained, assumed not to touch the modelled heap and not to raise" % fv.what.split("!")[0])
+        return Opaque("result-of:" + fv.what)
     if callable(fv) and all(is_concrete(a) for a in args) and all(is_concrete(a) for a in kwargs.values()):
         return fv(*args, **kwargs)
     raise Unsupported("call of %r" % (fv,))
@@ -363,8 +366,27 @@ def _nested_quant(it, g, universal):
     def body(k):
         e2 = dict(g.env)
         it.assign_target(gens[0].target, it.seq_elem(seq, k), e2)
-        sub = GenV(ast.GeneratorExp(elt=node.elt, generators=gens[1:]), e2)
-        return _quant(it, sub, universal)
+        conds = [it.truth(it.eval(c, e2)) for c in gens[0].ifs]
+        guard = conj(*conds)
+        if guard is False:
+            return universal
+        n_pc = len(it.pc)
+        if guard is not True:
+            it.pc.append(guard)
+        try:
+            sub = GenV(ast.GeneratorExp(elt=node.elt, generators=gens[1:]), e2)
+            inner = _quant(it, sub, universal)
+        except Infeasible:
+            return universal
+        finally:
+            del it.pc[n_pc:]
+        if guard is True:
+            return inner
+        if isinstance(inner, ForallV):
+            return ForallV(inner.n, lambda j, inner=inner, guard=guard: disj(neg(guard), core.to_bool(inner.body(j))))
+        if isinstance(inner, ExistsV):
+            return ExistsV(inner.n, lambda j, inner=inner, guard=guard: conj(guard, core.to_bool(inner.body(j))))
+        return disj(neg(guard), inner) if universal else conj(guard, inner)
 
     return ForallV(n, body) if universal else ExistsV(n, body)
 
